@@ -3,3 +3,4 @@ pub mod stream;
 pub mod wire;
 pub mod cmdgen;
 pub mod linz;
+pub mod cluster;
